@@ -3,6 +3,8 @@ import SpoxModel.Lemmas.BuildAlgLca
 import SpoxModel.Lemmas.BuildAlgEmit
 import SpoxModel.Lemmas.BuildAlgDiscover
 import SpoxModel.Lemmas.BuildAlgLeak
+import SpoxModel.Lemmas.BuildAlgScope
+import SpoxModel.Lemmas.BuildAlgOrder
 /-! Property theorems for C04 (only property-level statements and non-vacuity examples live here). -/
 namespace C04
 open BuildAlg
@@ -172,7 +174,11 @@ inductive Below (p : Prog) : Nat → Nat → Prop
 
 theorem discover_final (p : Prog) (hwf : WF p) (b : Built) (tr : List Ev)
     (h : build p = .ok (b, tr)) :
-    ∃ st : DState, DI p st ∧ (0 : Nat) ∈ st.topo ∧ b.graphTopo = st.topo.reverse := by
+    ∃ st : DState, DI p st ∧ (0 : Nat) ∈ st.topo ∧ b.graphTopo = st.topo.reverse ∧
+      b.owner = st.owner ∧
+      b.scopeOf = st.topo.reverse.foldl
+        (updateScopeTree p st.owner (lcaFuel st.topo.reverse)) [] ∧
+      TopoFacts p st.owner st.topo.reverse := by
   unfold build at h
   split at h
   · cases h
@@ -184,12 +190,29 @@ theorem discover_final (p : Prog) (hwf : WF p) (b : Built) (tr : List Ev)
       · cases h
       · cases h
         have hdi0 : DI p DState.empty :=
-          ⟨by intro h hh; simp [DState.empty] at hh, by intro e he; simp [DState.empty] at he,
+          ⟨by simp [DState.empty], by simpa [DState.empty] using closed_nil (gadj p),
+           by intro e he; simp [DState.empty] at he,
+           by intro h hh; simp [DState.empty] at hh, by intro e he; simp [DState.empty] at he,
            by intro s hs; simp [DState.empty] at hs, by intro s hs; simp [DState.empty] at hs,
            by intro s hs; simp [DState.empty] at hs, by intro s hs; simp [DState.empty] at hs⟩
-        obtain ⟨r1, _, _, r4⟩ := discover_spec p hwf _ (rankV p (.src 0) + 1) 0 DState.empty st
-          (by omega) hdi0 (by intro h hh; simp [Unfin, DState.empty] at hh) hd
-        exact ⟨st, r1, r4, rfl⟩
+        obtain ⟨r1, _, r3, r4, _, _, r7, r8⟩ :=
+          discover_spec p hwf _ (rankV p (.src 0) + 1) 0 DState.empty st
+            (by omega) hdi0 (by intro h hh; simp [Unfin, DState.empty] at hh) hd
+        refine ⟨st, r1, r4, rfl, rfl, rfl, ?_⟩
+        apply topoFacts_of_discover p hwf st r1
+        · intro h hh
+          apply Classical.byContradiction
+          intro hnt
+          have := (r3 h).mp ⟨hh, hnt⟩
+          simp [Unfin, DState.empty] at this
+        · intro x hx
+          rcases r7 x hx with h1 | h1 | h1
+          · simp [DState.empty] at h1
+          · left; exact h1
+          · right; exact h1
+        · rcases r8 with h1 | h1
+          · simp [DState.empty] at h1
+          · exact h1
 
 theorem below_claimed (p : Prog) (hwf : WF p) (st : DState) (hdi : DI p st) {s g : Nat}
     (hb : Below p s g) : g ∈ st.topo →
@@ -214,7 +237,7 @@ theorem no_outer_leak (p : Prog) (hwf : WF p) (b : Built) (tr : List Ev)
     (h : build p = .ok (b, tr)) (g s : Nat) (hg : g ∈ b.graphTopo) (hs : Below p s g)
     (pg : PGraph) (l : List Nat) (hpg : p.graphs[s]? = some pg) (hl : pg.args = some l)
     (a : Nat) (ha : a ∈ l) : ¬ Reach p.adjIn (.src g) (.node a) := by
-  obtain ⟨st, hdi, _, htopo⟩ := discover_final p hwf b tr h
+  obtain ⟨st, hdi, _, htopo, _⟩ := discover_final p hwf b tr h
   have hg' : g ∈ st.topo := by rw [htopo] at hg; simpa using hg
   obtain ⟨hst, n1, s1, hn1, hs1, hsub⟩ := below_claimed p hwf st hdi hs hg'
   intro hr
@@ -232,13 +255,57 @@ theorem leak_rejected (p : Prog) (hwf : WF p) (g s : Nat) (hg : g = 0 ∨ Below 
     (hl : pg.args = some l) (a : Nat) (ha : a ∈ l) (hleak : Reach p.adjIn (.src g) (.node a)) :
     ∀ b tr, build p ≠ .ok (b, tr) := by
   intro b tr h
-  obtain ⟨st, hdi, h0, htopo⟩ := discover_final p hwf b tr h
+  obtain ⟨st, hdi, h0, htopo, _⟩ := discover_final p hwf b tr h
   have hg' : g ∈ b.graphTopo := by
     rw [htopo]
     rcases hg with hg | hg
     · subst hg; simpa using h0
     · simpa using (below_claimed p hwf st hdi hg h0).1
   exact no_outer_leak p hwf b tr h g s hg' hs pg l hpg hl a ha hleak
+
+/-! ### least enclosing scope, on the algorithm (the scope tree changes while graphs are processed) -/
+
+/-- **least_enclosing**: after `for graph in graph_topo: update_scope_tree(graph)` the scope of every
+    vertex `v` is the lowest common ancestor — in the *final* scope tree
+    (`parent g = scope_of[owner g]`) — of all graphs that use `v` (reach it through input edges):
+    it encloses each of them, and every scope enclosing all of them encloses it. -/
+theorem least_enclosing (p : Prog) (hwf : WF p) (b : Built) (tr : List Ev)
+    (h : build p = .ok (b, tr)) (v : V) (c : Nat) (hc : b.scopeOf.get v = some c) :
+    LowestP (parent b.owner b.scopeOf)
+      (fun g => g ∈ b.graphTopo ∧ Reach p.adjIn (.src g) v) c := by
+  obtain ⟨st, _, _, htopo, hown, hso, F⟩ := discover_final p hwf b tr h
+  have hinv := scope_fold p hwf st.owner st.topo.reverse F (lcaFuel st.topo.reverse)
+    (by simp only [lcaFuel]; omega) st.topo.reverse [] [] (by simp) (sinv_empty p st.owner)
+  rw [← hso, ← hown] at hinv
+  have := hinv.low v c hc
+  rw [← htopo] at this
+  apply LowestP.iff _ this
+  intro G
+  have hiff := mem_visit_iff (rankV p) (rank_adjIn p hwf) p.fuel (.src G) v (rank_src_lt_fuel p hwf G)
+  constructor
+  · rintro ⟨a, b'⟩; exact ⟨a, hiff.mp b'⟩
+  · rintro ⟨a, b'⟩; exact ⟨a, hiff.mpr b'⟩
+
+/-- … and every vertex some graph uses has a scope, which is one of the discovered graphs; the
+    discovered graphs form a tree under `parent` rooted at the main graph. -/
+theorem scope_defined (p : Prog) (hwf : WF p) (b : Built) (tr : List Ev)
+    (h : build p = .ok (b, tr)) :
+    (∀ v g, g ∈ b.graphTopo → Reach p.adjIn (.src g) v → ∃ c, b.scopeOf.get v = some c) ∧
+    (∀ v c, b.scopeOf.get v = some c → c ∈ b.graphTopo) ∧
+    ∃ d, TreeOn (· ∈ b.graphTopo) (parent b.owner b.scopeOf) d 0 := by
+  obtain ⟨st, _, h0, htopo, hown, hso, F⟩ := discover_final p hwf b tr h
+  have hinv := scope_fold p hwf st.owner st.topo.reverse F (lcaFuel st.topo.reverse)
+    (by simp only [lcaFuel]; omega) st.topo.reverse [] [] (by simp) (sinv_empty p st.owner)
+  rw [← hso, ← hown, ← htopo] at hinv
+  refine ⟨?_, hinv.val, ?_⟩
+  · intro v g hg hr
+    exact hinv.dfn v g hg
+      ((mem_visit_iff (rankV p) (rank_adjIn p hwf) p.fuel (.src g) v (rank_src_lt_fuel p hwf g)).mpr hr)
+  · rcases hinv.tree with hnil | ⟨d, T, _⟩
+    · exfalso
+      have : (0 : Nat) ∈ b.graphTopo := by rw [htopo]; simpa using h0
+      rw [hnil] at this; cases this
+    · exact ⟨d, T⟩
 
 /-! ### the remaining rejections are single tests of the model (exercised by the correspondence) -/
 
@@ -278,6 +345,13 @@ example : ∃ b tr, build exNested = .ok (b, tr) ∧ (emitted tr).count (.node 2
     (V.node 2, 0) ∈ placed tr [] ∧ (V.node 4, 2) ∈ placed tr [] ∧ (V.node 3, 3) ∈ placed tr [] ∧
     structOk exNested tr [] = true := by
   refine ⟨_, _, rfl, ?_, ?_, ?_, ?_, ?_⟩ <;> decide
+
+/-- the hypothesis of `least_enclosing` is satisfiable: `e` is scoped in main, `Add(e, x)` in the
+    innermost then-branch, whose parent in the final tree is the outer then-branch -/
+example : ∃ b tr, build exNested = .ok (b, tr) ∧ b.scopeOf.get (.node 2) = some 0 ∧
+    b.scopeOf.get (.node 4) = some 2 ∧ parent b.owner b.scopeOf 2 = 4 ∧
+    parent b.owner b.scopeOf 4 = 0 := by
+  refine ⟨_, _, rfl, ?_, ?_, ?_, ?_⟩ <;> decide
 
 /-- a Loop body argument (4) leaked to the main graph: 7 = Add(Loop, arg 4) -/
 def exOuterLeak : Prog :=
